@@ -58,11 +58,19 @@ Print Assumptions C09_location_surplus_is_unplaced_not_misplaced.
 (* ... and a full table never blocks a call that needs no new slot *)
 Theorem C09_full_table_never_blocks_a_noop :
   forall existing reqs, count_fresh reqs = 0%nat ->
-    (forall k, In (RCarry k) reqs -> 1 <= k <= 255) ->
-    (exists o, add_locations existing reqs = Ok o) /\ (exists o, add_cuwp_slots existing reqs = Ok o) /\
+    ((forall k, In (RCarry k) reqs -> 1 <= k <= 255) -> (forall k, In k existing -> 1 <= k <= 255) ->
+     exists o, add_locations existing reqs = Ok o) /\
+    (exists o, add_cuwp_slots existing reqs = Ok o) /\
     (exists o, add_wav_files existing reqs = Ok o) /\ (exists o, add_switches existing reqs = Ok o).
 Proof. exact full_table_never_blocks_a_noop. Qed.
 Print Assumptions C09_full_table_never_blocks_a_noop.
+
+(* a location index outside [1, 255] is refused up front - full table or not, in the section or only in a trigger *)
+Theorem C09_out_of_range_location_is_refused :
+  forall existing reqs k, In k (existing ++ carried_ids reqs) -> k < 1 \/ 255 < k ->
+    add_locations existing reqs = Raise ValueError.
+Proof. exact out_of_range_location_is_refused. Qed.
+Print Assumptions C09_out_of_range_location_is_refused.
 
 Theorem C09_anchors :
   add_locations (range_from 1 62) (repeat RFresh 3) = Ok [Placed 63; Placed 65; Placed 66] /\
